@@ -48,6 +48,8 @@ fn int_case(ctx: &mut Ctx, width: usize, buf_len: Option<usize>, pushes: &[IPush
         }
     }
     let want = ser(&expected);
+    // Every third case writes over an existing, longer file: the writer must leave exactly its own data.
+    if k % 3 == 0 { std::fs::write(&name, vec![0xABu8; want.len() + 24 + (k as usize % 4096)]).unwrap(); }
     let result = guard(|| -> Result<(usize, Vec<Vec<u8>>, Vec<bool>), String> {
         let mut w = match buf_len {
             Some(b) => IntVectorWriter::with_buf_len(&name, width, b),
@@ -172,6 +174,7 @@ fn raw_case(ctx: &mut Ctx, buf_len: Option<usize>, pushes: &[RPush], mode: Close
         match p { RPush::Bit(b) => expected.push_bit(*b), RPush::Int(v, w) => unsafe { expected.push_int(*v, *w) } }
     }
     let want = ser(&expected);
+    if k % 3 == 0 { std::fs::write(&name, vec![0xCDu8; want.len() + 8 + (k as usize % 4096)]).unwrap(); }
     let result = guard(|| -> Result<(usize, Vec<Vec<u8>>, Vec<bool>), String> {
         let mut header: Vec<u64> = Vec::new();
         let mut w = match buf_len {
